@@ -263,8 +263,9 @@ protected:
         jw["name"] = GetModel().con_name(i_actual);
         fmt::MemoryWriter w2;
         w2 << GetModel().con_name(i_actual) << ": ";
-        WriteExpr<typename ProblemType::ExprTypes>(
-              w2, con.expr(), GetModel().GetVarNamer());
+        if (con.expr())     // missing in an incomplete NL file,
+          WriteExpr<typename ProblemType::ExprTypes>(  // see ConvertLogicalCon
+                w2, con.expr(), GetModel().GetVarNamer());
         jw["printed"] = w2.c_str();
       }
       wrt.write("\n");                     // EOL
